@@ -51,10 +51,26 @@ def known_table() -> str:
     return "\n".join(rows)
 
 
+def rules_table() -> str:
+    """Rule inventory as built, from the evidence files of the last run (rule id, what it requires, instances)."""
+    import re
+    rows = ["| rule | requires (one line, from the module) | ok | assumed | known/violating | listed |", "|---|---|---|---|---|---|"]
+    for f in sorted((ROOT / "evidence").glob("C*.json")):
+        cov = json.loads(f.read_text())["coverage"]
+        def key(r):
+            m = re.match(r"(C\d\d)\.R(\d+)", r)
+            return (m.group(1), int(m.group(2))) if m else (r, 0)
+        for rid in sorted(cov.get("rules", {}), key=key):
+            r = cov["rules"][rid]
+            doc = (r.get("doc") or "").replace("|", "/").replace("\n", " ")
+            rows.append(f"| {rid} | {doc[:300]} | {r.get('ok',0)} | {r.get('assumed',0)} | {r.get('violation',0)} | {r.get('listed',0)} |")
+    return "\n".join(rows)
+
+
 def main():
     p = ROOT / "DESIGN.md"
     s = p.read_text()
-    for name, fn in (("SEEDED", seeded_table), ("BENIGN", benign_table), ("FINDINGS", known_table)):
+    for name, fn in (("SEEDED", seeded_table), ("BENIGN", benign_table), ("FINDINGS", known_table), ("RULES", rules_table)):
         b, e = f"<!-- {name}-TABLE-BEGIN -->", f"<!-- {name}-TABLE-END -->"
         if b in s and e in s:
             s = s[: s.index(b) + len(b)] + "\n" + fn() + "\n" + s[s.index(e):]
